@@ -267,16 +267,6 @@ def NoStaleStamp (p : People) : Bool :=
 
 def AllActiveAlive (p : People) : Bool := p.auids.all (fun u => (p.alive.cell u).truthy)
 
-theorem cmp_eq_le (v w : Val) : (cmpVal .eq v w).truthy = true → (cmpVal .le v w).truthy = true := by
-  unfold cmpVal
-  split
-  · simp [Val.truthy]
-  · split
-    · rename_i x y _ _
-      simp only [Val.truthy, beq_iff_eq, decide_eq_true_eq]
-      intro h; rw [h]; exact Rat.le_refl
-    · simp [Val.truthy]
-
 /-- **Flow (partial).** When all active agents are alive at the start of death resolution (true after every
     `finish_step`) and no active agent carries a stamp from an earlier step, the number `update_results` records in
     `new_deaths[ti]` is exactly the number of agents that `step_die` killed in this step. -/
@@ -301,6 +291,78 @@ theorem C10_flow_partial (p : People) (inv : Inv p) (h1 : AllActiveAlive p = tru
   · rcases a2 with a2 | a2
     · simp [heq, a2]
     · exact absurd a2 heq
+
+/-- **Balance.** Per operation: `grow k` adds `k` living agents, `step_die` removes exactly the agents it newly kills,
+    and `request_death`, `update_results`, `remove_dead`, `finish_step` leave the number alive unchanged — so over any
+    step `n_alive[t] = n_alive[t-1] + created − died`. -/
+theorem C10_balance (p : People) (inv : Inv p) :
+    (∀ k s, OpOk p (.grow k s) → aliveCount (step p (.grow k s)) = aliveCount p + k) ∧
+    aliveCount (step p .stepDie) + diedNow p = aliveCount p ∧
+    (∀ us, OpOk p (.requestDeath us) → aliveCount (step p (.requestDeath us)) = aliveCount p) ∧
+    aliveCount (step p .updateResults) = aliveCount p ∧
+    aliveCount (step p .removeDead) = aliveCount p ∧
+    aliveCount (step p .finishStep) = aliveCount p := by
+  refine ⟨?_, ?_, ?_, rfl, ?_, ?_⟩
+  · intro k s hok
+    obtain ⟨p', h, _, _, hau, _, _, _, hold, hnew, _⟩ := grow_step p k s inv hok
+    have e : step p (.grow k s) = p' := by simp [step, stepE, h]
+    rw [e, aliveCount_eq, aliveCount_eq, hau, List.filter_append, List.length_append]
+    congr 1
+    · congr 1
+      apply List.filter_congr
+      intro u hu; rw [(hold u (inv.active u hu)).1]
+    · by_cases hk : k = 0
+      · simp [hk]
+      · simp only [hk, ↓reduceIte]
+        rw [List.filter_eq_self.mpr]
+        · simp
+        · intro u hu
+          have := (mem_newIds p.n k u).mp hu
+          rw [(hnew u this.1 this.2).1]; rfl
+  · obtain ⟨p', h, _, _, hau, _, _, _, _, _, hal⟩ := stepDie_step p inv
+    have e : step p .stepDie = p' := by simp [step, stepE, h]
+    rw [e, aliveCount_eq, aliveCount_eq, hau, diedNow]
+    have h1 : p.auids.filter (fun u => (p'.alive.cell u).truthy) =
+        p.auids.filter (fun u => !(cmpVal .le (p.tiDead.cell u) (tiVal p.ti)).truthy && (p.alive.cell u).truthy) := by
+      apply List.filter_congr
+      intro u hu
+      rw [hal u]
+      have hin : inRange p.tiDead p.auids = true := by
+        simp only [inRange, List.all_eq_true, decide_eq_true_eq]
+        intro x hx; have := inv.active x hx; have := inv.tiDead.le; omega
+      have hm : u ∈ deathUids p ↔ (cmpVal .le (p.tiDead.cell u) (tiVal p.ti)).truthy = true := by
+        simp only [deathUids, C11.C11_compare_true p.auids p.tiDead .le (tiVal p.ti) inv.nodup hin, List.mem_filter, hu, true_and]
+      by_cases hq : (cmpVal .le (p.tiDead.cell u) (tiVal p.ti)).truthy = true
+      · have hd := hm.mpr hq
+        simp only [hd, ↓reduceIte, hq, Bool.not_true, Bool.false_and]
+        rfl
+      · have : u ∉ deathUids p := fun hh => hq (hm.mp hh)
+        simp [this, hq]
+    have hin : inRange p.tiDead p.auids = true := by
+      simp only [inRange, List.all_eq_true, decide_eq_true_eq]
+      intro x hx; have := inv.active x hx; have := inv.tiDead.le; omega
+    have h2 : (deathUids p).filter (fun u => (p.alive.cell u).truthy) =
+        p.auids.filter (fun u => (cmpVal .le (p.tiDead.cell u) (tiVal p.ti)).truthy && (p.alive.cell u).truthy) := by
+      simp only [deathUids, C11.C11_compare_true p.auids p.tiDead .le (tiVal p.ti) inv.nodup hin, List.filter_filter]
+      apply List.filter_congr; intro u _; exact Bool.and_comm _ _
+    rw [h1, h2]
+    exact filter_split_length p.auids _ _
+  · intro us hok
+    obtain ⟨p', h, _, _, hau, hal, _⟩ := request_step p us inv hok
+    have e : step p (.requestDeath us) = p' := by simp [step, stepE, h]
+    rw [e, aliveCount, aliveCount, hau, hal]
+  · obtain ⟨p', h, _, _, hau, hal, _⟩ := removeDead_step p inv
+    have e : step p .removeDead = p' := by simp [step, stepE, h]
+    rw [e, aliveCount_eq, aliveCount_eq, hau, hal, List.filter_filter]
+    simp
+  · obtain ⟨p', h, _, _, hau, hal, _⟩ := removeDead_step p inv
+    have hs : stepE p .finishStep = .ok { p' with ti := p'.ti + 1 } := by simp [stepE, finishStep, h, bind, Except.bind, pure, Except.pure]
+    simp only [step, hs]
+    show count p'.auids p'.alive = _
+    have := aliveCount_eq p'
+    simp only [aliveCount] at this
+    rw [this, aliveCount_eq, hau, hal, List.filter_filter]
+    simp
 
 /-- **Flow (counterexample, kernel-checked).** Two agents.  Step 0: death resolution, results, then agent 1's death is
     requested (as `Pregnancy.finish_step` does), `finish_step`.  Step 1: `step_die` kills agent 1 (`n_alive` 2 → 1) but
